@@ -62,7 +62,7 @@ func (c *c18) ProbeNames() []string {
 }
 
 func (c *c18) SweepPrefix(string, uint64) []uint64 { return nil }
-func (c *c18) SweepCount(string) uint64           { return 0 }
+func (c *c18) SweepCount(string) uint64            { return 0 }
 
 func (c *c18) Init(env *Env) error {
 	c.env = env
